@@ -56,6 +56,10 @@ def window(draw, min_days=3, max_days=75, start_tods=((0, 0, 0), (14, 30, 0))):
     d0 = draw(session_dates)
     n = draw(st.one_of(st.integers(min_days, min(20, max_days)), st.integers(min_days, max_days),
                        st.integers(min(25, max_days), max_days)))
+    if draw(st.sampled_from([False, False, False, True])):
+        # the END falls on an edge date (Friday before a weekend month end, 31 Dec, 29 Feb, ...)
+        d1 = draw(session_dates.filter(lambda d: d > D.date(1995, 6, 1)))
+        d0 = d1 - D.timedelta(days=n)
     d1 = d0 + D.timedelta(days=n)
     tod = draw(st.sampled_from(list(start_tods)))
     return d0, d1, [d0.year, d0.month, d0.day] + list(tod), [d1.year, d1.month, d1.day, 23, 59, 0]
